@@ -484,6 +484,9 @@ def unwrap(v, t):
     if t.name == "Dyn":
         from .dyn import to_dyn
         return to_dyn(v)
+    if t.name == "DKey":
+        from .dyn import key_code
+        return key_code(v)
     if isinstance(t, TOpt):
         if isinstance(v, VNone):
             return t.none()
